@@ -26,6 +26,8 @@ EXPORTERS = {"to_arrow": "pyarrow.array", "to_pandas": "pandas.DataFrame", "to_l
 def check(ctx):
     repo = ctx.repo
     from . import generic
+    generic.bool_is_int(ctx, generic.module_functions(repo, "dataiter.data_frame", "dataiter.vector", "dataiter.list_of_dicts", "dataiter.util"),
+                        "the same dtype for every boolean, integer, float and string column")
     generic.finiteness_as_missing(ctx, generic.module_functions(repo, "dataiter.util", "dataiter.list_of_dicts", "dataiter.data_frame", "dataiter.vector"),
                                   "the same values and the same missing positions come back")
     for r, t in (("TNT-tolist", "cells leave the frame only through Vector.tolist (NA -> None)"),
